@@ -1445,7 +1445,6 @@ def nontrivial(frames, valid_set) -> bool:
 
 
 async def run_case(case, r: R):
-    rng = random.Random(case['seed'] * 31 + hash(case['chan']) % 1000)
     rng = random.Random(f"{case['seed']}/{case['chan']}/{case['mode']}")
     env = Env(case, r)
     env.meter = BudgetMeter()
@@ -1454,11 +1453,9 @@ async def run_case(case, r: R):
         if not env.fatal and '/bumble/' in code.co_filename:
             env.fatal.append(f'raised in {code.co_qualname}: {type(exc).__name__}: {str(exc)[:120]}')
     env.meter.on_fatal = on_fatal
-    try:
-        drv = await make_driver(env, rng)
-    except HarnessError as e:
-        # the victim could not even be brought up for this channel: not a verdict on hostile input
-        raise
+    # (a HarnessError - the victim could not be brought up, or the reference fails before anything hostile
+    # was sent - escapes as a harness error: inconclusive, never a verdict)
+    drv = await make_driver(env, rng)
     env.meter.start()
     try:
         # the reference must work before anything hostile was sent (else the harness is wrong)
